@@ -21,6 +21,16 @@ Proof. reflexivity. Qed.
 Theorem pinned_calls_refuted : mirrored (vexec_calls pinned_calls) = false /\ data_intact (vexec_calls pinned_calls) = false.
 Proof. split; reflexivity. Qed.
 
+Lemma div_ceil_eq a b : 0 < b -> div_ceil a b = (a + b - 1) / b.
+Proof.
+  intros Hb. unfold div_ceil.
+  pose proof (Nat.div_mod a b ltac:(lia)) as D. pose proof (Nat.mod_upper_bound a b ltac:(lia)) as U.
+  set (q := a / b) in *. set (r := a mod b) in *.
+  destruct (r =? 0) eqn:E; [apply Nat.eqb_eq in E | apply Nat.eqb_neq in E].
+  - rewrite Nat.add_0_r. apply (Nat.div_unique _ b q (b - 1)); lia.
+  - apply (Nat.div_unique _ b (q + 1) (r - 1)); lia.
+Qed.
+
 (** page rounding: the least multiple of the page size that is >= the request *)
 Theorem page_mul_spec page m : 0 < page ->
   m <= page_mul page m /\ page_mul page m mod page = 0 /\ page_mul page m < m + page /\
